@@ -128,6 +128,64 @@ def run(repo, seed, tier):
                 violations.append({'label': 'answers of a Script without explicit project differ from a fresh process '
                                             'after project markers changed',
                                    'input': 'step: %s' % desc, 'observed': repr((warm, fresh))[:600]})
+        # a search-path directory that does not exist at the first lookup and is created later
+        late_root = os.path.join(root, 'late_ws')
+        os.makedirs(late_root)
+        late_dir = os.path.join(late_root, 'lib_late')
+        lcode = 'import late_mod\nlate_mod.late_value\n'
+        lq = [('infer', 2, 12), ('goto', 1, 9)]
+        lpath = os.path.join(late_root, 'main.py')
+
+        def late_answers(j):
+            project = j.Project(late_root, added_sys_path=[late_dir])
+            s = j.Script(lcode, path=lpath, project=project)
+            out = []
+            for kind, line, col in lq:
+                try:
+                    out.append(sorted([d.name, d.type, os.path.basename(str(d.module_path)), d.line] for d in getattr(s, kind)(line, col)))
+                except Exception as e:
+                    out.append('EXC:' + type(e).__name__)
+            return out
+        import json
+        import subprocess
+        import sys
+        child2 = ('import sys, json, os; sys.path.insert(0, %r); import jedi; jedi.settings.cache_directory = %r; '
+                  'late_root, late_dir, lcode, lpath, lq = %r, %r, %r, %r, %r\n'
+                  'project = jedi.Project(late_root, added_sys_path=[late_dir]); s = jedi.Script(lcode, path=lpath, project=project)\n'
+                  'out = []\n'
+                  'for kind, line, col in lq:\n'
+                  '    try: out.append(sorted([d.name, d.type, os.path.basename(str(d.module_path)), d.line] for d in getattr(s, kind)(line, col)))\n'
+                  '    except Exception as e: out.append("EXC:" + type(e).__name__)\n'
+                  'print(json.dumps(out))')
+        for desc, action in [('search-path directory does not exist yet', lambda: None),
+                             ('directory and module created', lambda: (os.makedirs(late_dir), open(os.path.join(late_dir, 'late_mod.py'), 'w').write('late_value = 1\n')))]:
+            action()
+            evaluations += 1
+            warm = json.loads(json.dumps(late_answers(jedi)))
+            cache = tempfile.mkdtemp(prefix='fresh_', dir=os.environ['STANDIN_TMP'])
+            p = subprocess.run([sys.executable, '-c', child2 % (repo, cache, late_root, late_dir, lcode, lpath, lq)],
+                               capture_output=True, text=True, timeout=300)
+            shutil.rmtree(cache, ignore_errors=True)
+            fresh = json.loads(p.stdout.strip().splitlines()[-1])
+            if warm != fresh:
+                violations.append({'label': 'a module in a search-path directory created after the first lookup is not found',
+                                   'input': 'step: %s' % desc, 'observed': repr((warm, fresh))[:600]})
+        # an unsaved buffer of a path must not be what a later Script sees when it IMPORTS that path
+        ub_root = os.path.join(root, 'unsaved_ws')
+        os.makedirs(ub_root)
+        with open(os.path.join(ub_root, 'shared_mod.py'), 'w') as f:
+            f.write('def on_disk(): pass\n')
+        jedi.Script('def only_in_buffer(): pass\n', path=os.path.join(ub_root, 'shared_mod.py'),
+                    project=jedi.Project(ub_root)).get_names()
+        ucode = 'import shared_mod\nshared_mod.o'
+        upath = os.path.join(ub_root, 'user.py')
+        evaluations += 1
+        warm = answers(jedi, ub_root, upath, ucode, [('complete', 2, 12)])
+        fresh = fresh_answers(repo, ub_root, upath, ucode, [('complete', 2, 12)])
+        if warm != fresh:
+            violations.append({'label': 'an import sees the unsaved buffer of an earlier Script instead of the file on disk',
+                               'input': 'Script(unsaved text, path=shared_mod.py) then import shared_mod from another buffer',
+                               'observed': repr((warm, fresh))[:600]})
     finally:
         shutil.rmtree(root, ignore_errors=True)
     return {'name': 'C09.fs-mutations', 'contract': 'C09.freshness',
